@@ -156,6 +156,36 @@ Example exa_text : show_a (exa_a (AOne (BQ [120] 97 (QBr [51] BrExact) false (BQ
                    = [120; 97; 97; 97; 121; 98; 42]%N.
 Proof. reflexivity. Qed.
 
+(* (?:r|s)t = rt|st : an alternative that is a two-way non-capturing group followed by a rest t becomes two
+   alternatives, each followed by t (XPath; applied to every such alternative of every alternation, the
+   parts themselves left as they are) *)
+Fixpoint app_b (b1 t : branch) : branch :=
+  match b1 with
+  | BEnd cs => pre_b cs t
+  | BGrp cs cap a b' => BGrp cs cap a (app_b b' t)
+  | BQ cs c k rel b' => BQ cs c k rel (app_b b' t)
+  | BAn cs eol b' => BAn cs eol (app_b b' t)
+  | BD cs da q b' => BD cs da q (app_b b' t)
+  end.
+Fixpoint dist_b (b : branch) : branch :=
+  match b with
+  | BEnd cs => BEnd cs
+  | BGrp cs cap a b' => BGrp cs cap (dist_a a) (dist_b b')
+  | BQ cs c k rel b' => BQ cs c k rel (dist_b b')
+  | BAn cs eol b' => BAn cs eol (dist_b b')
+  | BD cs da q b' => BD cs da q (dist_b b')
+  end
+with dist_a (a : alt) : alt :=
+  match a with
+  | AOne (BGrp [] false (ACons b1 (AOne b2)) t) => ACons (app_b b1 t) (AOne (app_b b2 t))
+  | AOne b => AOne (dist_b b)
+  | ACons (BGrp [] false (ACons b1 (AOne b2)) t) a' => ACons (app_b b1 t) (ACons (app_b b2 t) (dist_a a'))
+  | ACons b a' => ACons (dist_b b) (dist_a a')
+  end.
+Example dist_text : show_a (dist_a (ACons (BEnd [120]) (AOne (BGrp [] false (ACons (BEnd [97]) (AOne (BQ [] 98 QStar false (BEnd [])))) (BEnd [99; 100])))))%N
+                    = [120; 124; 97; 99; 100; 124; 98; 42; 99; 100]%N.
+Proof. reflexivity. Qed.
+
 Example plus_text : show_a (plus_a (AOne (BQ [120] 97 QPlus false (BEnd [121]))))%N = [120; 97; 97; 42; 121]%N.
 Proof. reflexivity. Qed.
 Example opt_text : show_a (opt_a (AOne (BQ [120] 97 QOpt false (BEnd [121]))))%N = [120; 40; 97; 124; 41; 121]%N.
@@ -306,6 +336,82 @@ Proof.
   - intros cs da q b IHb H. cbn [exa_b ok_b] in *. apply andb_true_iff in H as [H Hb]. rewrite H, (IHb Hb). reflexivity.
   - intros b IHb H. exact (IHb H).
   - intros b IHb a IHa H. cbn [exa_a ok_a] in *. apply andb_true_iff in H as [H1 H2]. rewrite (IHb H1), (IHa H2). reflexivity.
+Qed.
+
+Definition split_b (b : branch) : option (branch * branch * branch) :=
+  match b with
+  | BGrp [] false (ACons b1 (AOne b2)) t => Some (b1, b2, t)
+  | _ => None
+  end.
+Lemma split_some b b1 b2 t : split_b b = Some (b1, b2, t) -> b = BGrp [] false (ACons b1 (AOne b2)) t.
+Proof.
+  destruct b as [cs|cs cap a b'|cs c k rel b'|cs eol b'|cs da q b']; try discriminate.
+  destruct cs as [|c0 cs]; [|discriminate]. destruct cap; [discriminate|].
+  destruct a as [x|x [y|y z]]; try discriminate. cbn [split_b]. intros [= -> -> ->]. reflexivity.
+Qed.
+Lemma dist_one b : dist_a (AOne b) = match split_b b with
+                                     | Some (b1, b2, t) => ACons (app_b b1 t) (AOne (app_b b2 t))
+                                     | None => AOne (dist_b b)
+                                     end.
+Proof.
+  destruct b as [cs|cs cap a b'|cs c k rel b'|cs eol b'|cs da q b']; try reflexivity.
+  destruct cs as [|c0 cs]; [|reflexivity]. destruct cap; [reflexivity|].
+  destruct a as [x|x [y|y z]]; reflexivity.
+Qed.
+Lemma dist_cons b a' : dist_a (ACons b a') = match split_b b with
+                                             | Some (b1, b2, t) => ACons (app_b b1 t) (ACons (app_b b2 t) (dist_a a'))
+                                             | None => ACons (dist_b b) (dist_a a')
+                                             end.
+Proof.
+  destruct b as [cs|cs cap a b'|cs c k rel b'|cs eol b'|cs da q b']; try reflexivity.
+  destruct cs as [|c0 cs]; [|reflexivity]. destruct cap; [reflexivity|].
+  destruct a as [x|x [y|y z]]; reflexivity.
+Qed.
+
+(* what the appended branch prints *)
+Lemma show_pre cs0 b : show_b (pre_b cs0 b) = cs0 ++ show_b b.
+Proof. destruct b; cbn [pre_b show_b]; rewrite <- ?app_assoc; reflexivity. Qed.
+Lemma show_app t : forall b1, show_b (app_b b1 t) = show_b b1 ++ show_b t.
+Proof.
+  apply (branch_mind (fun b1 => show_b (app_b b1 t) = show_b b1 ++ show_b t) (fun _ => True)); auto.
+  - intros cs. cbn [app_b show_b]. apply show_pre.
+  - intros cs cap a _ b IH. cbn [app_b show_b]. rewrite IH. repeat (rewrite <- ?app_assoc; cbn [app]). reflexivity.
+  - intros cs c k rel b IH. cbn [app_b show_b]. rewrite IH. repeat (rewrite <- ?app_assoc; cbn [app]). reflexivity.
+  - intros cs eol b IH. cbn [app_b show_b]. rewrite IH. repeat (rewrite <- ?app_assoc; cbn [app]). reflexivity.
+  - intros cs da q b IH. cbn [app_b show_b]. rewrite IH. repeat (rewrite <- ?app_assoc; cbn [app]). reflexivity.
+Qed.
+
+Lemma app_ok xpath t : ok_b xpath t = true -> forall b1, ok_b xpath b1 = true -> ok_b xpath (app_b b1 t) = true.
+Proof.
+  intros Ht. apply (branch_mind (fun b1 => ok_b xpath b1 = true -> ok_b xpath (app_b b1 t) = true) (fun _ => True)); auto.
+  - intros cs H. cbn [app_b]. apply pre_ok; [exact H|exact Ht].
+  - intros cs cap a _ b IHb H. cbn [app_b ok_b] in *. apply andb_true_iff in H as [H Hb]. rewrite H, (IHb Hb). reflexivity.
+  - intros cs c k rel b IHb H. cbn [app_b ok_b] in *. apply andb_true_iff in H as [H Hb]. rewrite H, (IHb Hb). reflexivity.
+  - intros cs eol b IHb H. cbn [app_b ok_b] in *. apply andb_true_iff in H as [H Hb]. rewrite H, (IHb Hb). reflexivity.
+  - intros cs da q b IHb H. cbn [app_b ok_b] in *. apply andb_true_iff in H as [H Hb]. rewrite H, (IHb Hb). reflexivity.
+Qed.
+Lemma split_ok xpath b b1 b2 t : split_b b = Some (b1, b2, t) -> ok_b xpath b = true ->
+  ok_b xpath b1 = true /\ ok_b xpath b2 = true /\ ok_b xpath t = true.
+Proof.
+  intros Hs Hok. rewrite (split_some _ _ _ _ Hs) in Hok. cbn [ok_b ok_a forallb orb andb] in Hok.
+  apply andb_true_iff in Hok as [Hok Ht]. apply andb_true_iff in Hok as [_ H12]. apply andb_true_iff in H12 as [H1 H2]. auto.
+Qed.
+Lemma dist_ok xpath : (forall b, ok_b xpath b = true -> ok_b xpath (dist_b b) = true)
+                      /\ (forall a, ok_a xpath a = true -> ok_a xpath (dist_a a) = true).
+Proof.
+  apply branch_alt_ind.
+  - intros cs H. exact H.
+  - intros cs cap a IHa b IHb H. cbn [dist_b ok_b] in *. apply andb_true_iff in H as [H Hb]. apply andb_true_iff in H as [H Ha].
+    rewrite H, (IHa Ha), (IHb Hb). reflexivity.
+  - intros cs c k rel b IHb H. cbn [dist_b ok_b] in *. apply andb_true_iff in H as [H Hb]. rewrite H, (IHb Hb). reflexivity.
+  - intros cs eol b IHb H. cbn [dist_b ok_b] in *. apply andb_true_iff in H as [H Hb]. rewrite H, (IHb Hb). reflexivity.
+  - intros cs da q b IHb H. cbn [dist_b ok_b] in *. apply andb_true_iff in H as [H Hb]. rewrite H, (IHb Hb). reflexivity.
+  - intros b IHb H. rewrite dist_one. cbn [ok_a] in H. destruct (split_b b) as [[[b1 b2] t]|] eqn:Es; [|exact (IHb H)].
+    destruct (split_ok xpath b b1 b2 t Es H) as (H1 & H2 & Ht). cbn [ok_a]. rewrite (app_ok xpath t Ht b1 H1), (app_ok xpath t Ht b2 H2). reflexivity.
+  - intros b IHb a IHa H. rewrite dist_cons. cbn [ok_a] in H. apply andb_true_iff in H as [Hb Ha].
+    destruct (split_b b) as [[[b1 b2] t]|] eqn:Es; [|cbn [ok_a]; rewrite (IHb Hb), (IHa Ha); reflexivity].
+    destruct (split_ok xpath b b1 b2 t Es Hb) as (H1 & H2 & Ht). cbn [ok_a].
+    rewrite (app_ok xpath t Ht b1 H1), (app_ok xpath t Ht b2 H2), (IHa Ha). reflexivity.
 Qed.
 
 Section Laws.
@@ -775,6 +881,93 @@ Proof.
     cbn [exa_a Da]. rewrite !in_app_iff, (IHb Okb p q Hp), (IHa Oka p q Hp). reflexivity.
 Qed.
 
+(* a branch followed by a branch *)
+Lemma app_D xpath t : forall b1, ok_b xpath b1 = true -> forall p q, p <= n ->
+  (In q (Db input ci multi single (app_b b1 t) p) <-> exists k, In k (Db input ci multi single b1 p) /\ In q (Db input ci multi single t k)).
+Proof.
+  apply (branch_mind (fun b1 => ok_b xpath b1 = true -> forall p q, p <= n ->
+           (In q (Db input ci multi single (app_b b1 t) p) <-> exists k, In k (Db input ci multi single b1 p) /\ In q (Db input ci multi single t k)))
+         (fun _ => True)); auto.
+  - intros cs _ p q Hp. cbn [app_b Db]. apply pre_D. exact Hp.
+  - intros cs cap a _ b IHb Hok p q Hp. cbn [ok_b] in Hok. apply andb_true_iff in Hok as [Hok Okb].
+    apply andb_true_iff in Hok as [_ Oka]. cbn [app_b Db]. rewrite in_flat_map. split.
+    + intros (x & Hx & H). assert (Lx : x <= n).
+      { apply in_flat_map in Hx as (k & Hk & Hx). apply lit_le in Hk. eapply (proj2 (D_le input ci multi single xpath)); [exact Oka| |exact Hx]. tauto. }
+      apply (IHb Okb x q Lx) in H. destruct H as (k & Hk & H). exists k. split; [|exact H]. apply in_flat_map. eauto.
+    + intros (k & Hk & H). apply in_flat_map in Hk as (x & Hx & Hk). exists x. split; [exact Hx|].
+      assert (Lx : x <= n).
+      { apply in_flat_map in Hx as (k0 & Hk0 & Hx). apply lit_le in Hk0. eapply (proj2 (D_le input ci multi single xpath)); [exact Oka| |exact Hx]. tauto. }
+      apply (IHb Okb x q Lx). eauto.
+  - intros cs c k rel b IHb Hok p q Hp. cbn [ok_b] in Hok. apply andb_true_iff in Hok as [Hok Okb].
+    apply andb_true_iff in Hok as [_ Hkq]. cbn [app_b Db]. rewrite in_flat_map. split.
+    + intros (x & Hx & H). assert (Lx : x <= n).
+      { apply in_flat_map in Hx as (k0 & Hk0 & Hx). apply lit_le in Hk0. eapply (Dq_le input ci multi single); [exact Hkq| |exact Hx]. tauto. }
+      apply (IHb Okb x q Lx) in H. destruct H as (k0 & Hk0 & H). exists k0. split; [|exact H]. apply in_flat_map. eauto.
+    + intros (k0 & Hk0 & H). apply in_flat_map in Hk0 as (x & Hx & Hk0). exists x. split; [exact Hx|].
+      assert (Lx : x <= n).
+      { apply in_flat_map in Hx as (k1 & Hk1 & Hx). apply lit_le in Hk1. eapply (Dq_le input ci multi single); [exact Hkq| |exact Hx]. tauto. }
+      apply (IHb Okb x q Lx). eauto.
+  - intros cs eol b IHb Hok p q Hp. cbn [ok_b] in Hok. apply andb_true_iff in Hok as [_ Okb].
+    cbn [app_b Db]. rewrite in_flat_map. split.
+    + intros (x & Hx & H). assert (Lx : x <= n).
+      { apply in_flat_map in Hx as (k0 & Hk0 & Hx). apply lit_le in Hk0. eapply (Dan_le input ci multi single); [|exact Hx]. tauto. }
+      apply (IHb Okb x q Lx) in H. destruct H as (k0 & Hk0 & H). exists k0. split; [|exact H]. apply in_flat_map. eauto.
+    + intros (k0 & Hk0 & H). apply in_flat_map in Hk0 as (x & Hx & Hk0). exists x. split; [exact Hx|].
+      assert (Lx : x <= n).
+      { apply in_flat_map in Hx as (k1 & Hk1 & Hx). apply lit_le in Hk1. eapply (Dan_le input ci multi single); [|exact Hx]. tauto. }
+      apply (IHb Okb x q Lx). eauto.
+  - intros cs da q0 b IHb Hok p q Hp. cbn [ok_b] in Hok. apply andb_true_iff in Hok as [Hok Okb].
+    apply andb_true_iff in Hok as [_ Hkq]. cbn [app_b Db]. rewrite in_flat_map. split.
+    + intros (x & Hx & H). assert (Lx : x <= n).
+      { apply in_flat_map in Hx as (k0 & Hk0 & Hx). apply lit_le in Hk0. eapply (Dd_le input ci multi single xpath); [exact Hkq| |exact Hx]. tauto. }
+      apply (IHb Okb x q Lx) in H. destruct H as (k0 & Hk0 & H). exists k0. split; [|exact H]. apply in_flat_map. eauto.
+    + intros (k0 & Hk0 & H). apply in_flat_map in Hk0 as (x & Hx & Hk0). exists x. split; [exact Hx|].
+      assert (Lx : x <= n).
+      { apply in_flat_map in Hx as (k1 & Hk1 & Hx). apply lit_le in Hk1. eapply (Dd_le input ci multi single xpath); [exact Hkq| |exact Hx]. tauto. }
+      apply (IHb Okb x q Lx). eauto.
+Qed.
+
+(* the two alternatives of a distributed group *)
+Lemma dist_step xpath b b1 b2 t p q : split_b b = Some (b1, b2, t) -> ok_b xpath b = true -> p <= n ->
+  (In q (Db input ci multi single (app_b b1 t) p ++ Db input ci multi single (app_b b2 t) p) <-> In q (Db input ci multi single b p)).
+Proof.
+  intros Hs Hok Hp. destruct (split_ok xpath b b1 b2 t Hs Hok) as (H1 & H2 & Ht).
+  rewrite (split_some _ _ _ _ Hs). cbn [Db Da]. rewrite (lit_nil input ci p Hp). cbn [flat_map]. rewrite app_nil_r.
+  rewrite in_app_iff, (app_D xpath t b1 H1 p q Hp), (app_D xpath t b2 H2 p q Hp), in_flat_map. split.
+  - intros [(k & Hk & H)|(k & Hk & H)]; exists k; (split; [apply in_app_iff; auto|exact H]).
+  - intros (k & Hk & H). apply in_app_iff in Hk as [Hk|Hk]; [left|right]; eauto.
+Qed.
+
+Theorem dist_D xpath :
+     (forall b, ok_b xpath b = true -> forall p q, p <= n -> (In q (Db input ci multi single (dist_b b) p) <-> In q (Db input ci multi single b p)))
+  /\ (forall a, ok_a xpath a = true -> forall p q, p <= n -> (In q (Da input ci multi single (dist_a a) p) <-> In q (Da input ci multi single a p))).
+Proof.
+  apply branch_alt_ind.
+  - intros cs _ p q Hp. reflexivity.
+  - intros cs cap a IHa b IHb Hok p q Hp. cbn [ok_b] in Hok. apply andb_true_iff in Hok as [Hok Okb].
+    apply andb_true_iff in Hok as [_ Oka]. cbn [dist_b Db].
+    apply flat_map_eqv.
+    + intros x. apply flat_map_eqv; [reflexivity|]. intros k Hk y. apply (IHa Oka). apply lit_le in Hk. tauto.
+    + intros x Hx y. apply (IHb Okb). apply in_flat_map in Hx as (k & Hk & Hx). apply lit_le in Hk.
+      eapply (proj2 (D_le input ci multi single xpath)); [apply (proj2 (dist_ok xpath)); exact Oka| |exact Hx]. tauto.
+  - intros cs c k rel b IHb Hok p q Hp. cbn [ok_b] in Hok. apply andb_true_iff in Hok as [Hok Okb].
+    apply andb_true_iff in Hok as [_ Hkq]. cbn [dist_b Db]. apply flat_map_eqv; [reflexivity|]. intros x Hx y. apply (IHb Okb).
+    apply in_flat_map in Hx as (k1 & Hk1 & Hx). apply lit_le in Hk1. eapply (Dq_le input ci multi single); [exact Hkq| |exact Hx]. tauto.
+  - intros cs eol b IHb Hok p q Hp. cbn [ok_b] in Hok. apply andb_true_iff in Hok as [_ Okb].
+    cbn [dist_b Db]. apply flat_map_eqv; [reflexivity|]. intros x Hx y. apply (IHb Okb).
+    apply in_flat_map in Hx as (k1 & Hk1 & Hx). apply lit_le in Hk1. eapply (Dan_le input ci multi single); [|exact Hx]. tauto.
+  - intros cs da q0 b IHb Hok p q Hp. cbn [ok_b] in Hok. apply andb_true_iff in Hok as [Hok Okb]. apply andb_true_iff in Hok as [_ Hkq].
+    cbn [dist_b Db]. apply flat_map_eqv; [reflexivity|]. intros x Hx y. apply (IHb Okb).
+    apply in_flat_map in Hx as (k1 & Hk1 & Hx). apply lit_le in Hk1. eapply (Dd_le input ci multi single xpath); [exact Hkq| |exact Hx]. tauto.
+  - intros b IHb Hok p q Hp. rewrite dist_one. cbn [ok_a] in Hok.
+    destruct (split_b b) as [[[b1 b2] t]|] eqn:Es; [|exact (IHb Hok p q Hp)].
+    cbn [Da]. apply (dist_step xpath b b1 b2 t p q Es Hok Hp).
+  - intros b IHb a IHa Hok p q Hp. rewrite dist_cons. cbn [ok_a] in Hok. apply andb_true_iff in Hok as [Okb Oka].
+    destruct (split_b b) as [[[b1 b2] t]|] eqn:Es.
+    + cbn [Da]. rewrite app_assoc, in_app_iff, (dist_step xpath b b1 b2 t p q Es Okb Hp), (IHa Oka p q Hp), in_app_iff. reflexivity.
+    + cbn [Da]. rewrite !in_app_iff, (IHb Okb p q Hp), (IHa Oka p q Hp). reflexivity.
+Qed.
+
 Lemma Dmatch_eqv a1 a2 :
   (forall p q, p <= n -> (In q (Da input ci multi single a1 p) <-> In q (Da input ci multi single a2 p))) ->
   Dmatch input ci multi single a1 = Dmatch input ci multi single a2.
@@ -951,4 +1144,18 @@ Proof.
   apply (rewrite_same_verdict exa_a).
   - intros xpath a0. apply (proj2 (exa_ok xpath)).
   - intros xpath input0 ci multi single a0. apply (proj2 (exa_D input0 ci multi single xpath)).
+Qed.
+
+(* (?:r|s)t = rt|st wherever an alternative has that shape, from the pattern text *)
+Theorem distribute_law_end_to_end fl a input :
+  ok_a (f_xpath fl) a = true -> f_literal fl = false -> f_ws fl = false -> (N.of_nat (length input) < umax)%N -> valid_in input ->
+  exists prog prog', compile true fl (show_a a) = Ok prog /\ compile true fl (show_a (dist_a a)) = Ok prog'
+    /\ match matches prog input 0 st0, matches prog' input 0 st0 with
+       | MTrue _, MTrue _ | MFalse _, MFalse _ => True
+       | _, _ => False
+       end.
+Proof.
+  apply (rewrite_same_verdict dist_a).
+  - intros xpath a0. apply (proj2 (dist_ok xpath)).
+  - intros xpath input0 ci multi single a0. apply (proj2 (dist_D input0 ci multi single xpath)).
 Qed.
